@@ -6,7 +6,7 @@ From Wencry Require Import Bytes MiniC MiniCRun MiniCLemmas.
 Import ListNotations.
 Local Open Scope Z_scope.
 
-Notation B := Z.of_N (only parsing).
+Local Notation B := Z.of_N (only parsing).
 
 (* ------------------------------------------------------------------ *)
 (* expressions                                                         *)
